@@ -179,6 +179,15 @@ def run(ctx):
     agg = L.merge(ctx, results)
     L.xcheck(ctx, agg, results)
     pg_part(ctx)
+    if not ctx.quick:
+        # smoke pass without scheduler (real threading.Lock objects, 4 free-running threads): decides nothing,
+        # its only job is to crash loudly on unsynchronised shared state that cooperative scheduling hides
+        world = L.make_world('free')
+        try: smoke = tx.free_run(world, [L.body_of(BY_NAME[n]) for n in ('rmw_x', 'ry_wx', 'fu_rmw_x', 'rmw_x')], 200)
+        finally: world.close()
+        ctx.cov['free_running_smoke_pass'] = dict(iterations=200, threads=4, outcome_classes=sorted(smoke), note='not deterministic; decides nothing')
+        for k in smoke:
+            if 'NON-PONY' in k: ctx.violation('free-run|%s' % k, dict(outcome=k), 'free-running threads: ' + k)
     c = ctx.counters
     L.guards(ctx, [
         ('schedules in which OptimisticCheckError occurred', c.get('OptimisticCheckError', 0), 500),
